@@ -55,6 +55,35 @@ Proof.
   apply ml_add_false_In in H. apply in_app_iff. destruct H as [->|H]; [right; left; reflexivity|left; apply IH; exact H].
 Qed.
 
+(* ---- MatchList with replace_if_longer = true, fed with at most one match per start -- *)
+Definition all_true (ms : list mtch) : list (mtch * bool) := map (fun m => (m, true)) ms.
+
+Lemma run_adds_true_subset : forall ms,
+  (forall a b, In a ms -> In b ms -> m_start a = m_start b -> a = b) ->
+  forall y, In y (run_adds (all_true ms)) -> In y ms.
+Proof.
+  induction ms as [|m ms IH] using rev_ind; intros Hf y H; [destruct H|].
+  assert (Hf' : forall a b, In a ms -> In b ms -> m_start a = m_start b -> a = b).
+  { intros a b Ha Hb. apply Hf; apply in_app_iff; left; assumption. }
+  unfold all_true in *. rewrite map_app in H. cbn [map] in H. rewrite run_adds_snoc in H. cbn [fst snd] in H.
+  set (l := run_adds (map (fun m0 => (m0, true)) ms)) in *.
+  assert (Hs : sorted l) by apply run_adds_sorted.
+  apply in_app_iff.
+  destruct (add_shape_ok l m true Hs) as [l1 l2 H1 H2 H3|l1 x l2 e H1 H2 H3]; cbn [fst] in H;
+    apply in_app_iff in H; cbn [In] in H.
+  - destruct H as [Hin|[Hin|Hin]].
+    + left. apply (IH Hf'). rewrite H1. apply in_app_iff. left. assumption.
+    + right. left. assumption.
+    + left. apply (IH Hf'). rewrite H1. apply in_app_iff. right. assumption.
+  - assert (Hx : In x ms) by (apply (IH Hf'); rewrite H1; apply in_app_iff; right; left; reflexivity).
+    assert (Exm : x = m).
+    { apply Hf; [apply in_app_iff; left; exact Hx|apply in_app_iff; right; left; reflexivity|exact H2]. }
+    destruct H as [Hin|[Hin|Hin]].
+    + left. apply (IH Hf'). rewrite H1. apply in_app_iff. left. assumption.
+    + left. rewrite <- Hin. rewrite H3, Exm, N.max_id, set_end_same. rewrite <- Exm. exact Hx.
+    + left. apply (IH Hf'). rewrite H1. apply in_app_iff. right. right. assumption.
+Qed.
+
 Lemma run_adds_starts : forall ops x,
   In x (map m_start (run_adds ops)) <-> In x (map (fun o => m_start (fst o)) ops).
 Proof.
@@ -119,21 +148,27 @@ Section Generic.
 
   Theorem pipeline_generic : forall L,
     (forall s e k, In (s, e, k) L <-> (f s = Some (e, k) /\ s <= n)) ->
-    run_adds (all_false (map mtch_of L)) = map mtch_of ref_list.
+    run_adds (all_true (map mtch_of L)) = map mtch_of ref_list.
   Proof.
-    intros L HL. apply sorted_ext_eq.
+    intros L HL.
+    assert (Hfun : forall a b, In a (map mtch_of L) -> In b (map mtch_of L) -> m_start a = m_start b -> a = b).
+    { intros a b Ha Hb E. apply in_map_iff in Ha. destruct Ha as [[[s1 e1] k1] [<- Ha]].
+      apply in_map_iff in Hb. destruct Hb as [[[s2 e2] k2] [<- Hb]]. cbn [mtch_of m_start] in E.
+      assert (s1 = s2) by lia. subst s2. apply HL in Ha. apply HL in Hb. destruct Ha as [Ea _]. destruct Hb as [Eb _].
+      rewrite Ea in Eb. inversion Eb. reflexivity. }
+    apply sorted_ext_eq.
     - apply run_adds_sorted.
     - apply (proj1 (ref_from_sorted (S n) 0)).
     - intro y. split.
-      + intro H. apply run_adds_false_subset in H. apply in_map_iff in H. destruct H as [[[s e] k] [<- H]].
+      + intro H. apply (run_adds_true_subset _ Hfun) in H. apply in_map_iff in H. destruct H as [[[s e] k] [<- H]].
         apply in_map. apply ref_list_In. apply HL. exact H.
       + intro H. apply in_map_iff in H. destruct H as [[[s e] k] [<- H]]. apply ref_list_In in H.
         assert (HinL : In (s, e, k) L) by (apply HL; exact H).
-        assert (Hst : In (N.of_nat s) (map m_start (run_adds (all_false (map mtch_of L))))).
-        { apply run_adds_starts. unfold all_false. rewrite map_map. apply in_map_iff.
+        assert (Hst : In (N.of_nat s) (map m_start (run_adds (all_true (map mtch_of L))))).
+        { apply run_adds_starts. unfold all_true. rewrite map_map. apply in_map_iff.
           exists (mtch_of (s, e, k)). split; [reflexivity|]. apply in_map. exact HinL. }
         apply in_map_iff in Hst. destruct Hst as [y' [Hy' Hin']].
-        pose proof (run_adds_false_subset _ _ Hin') as Hsub. apply in_map_iff in Hsub.
+        pose proof (run_adds_true_subset _ Hfun _ Hin') as Hsub. apply in_map_iff in Hsub.
         destruct Hsub as [[[s' e'] k'] [<- HinL']]. cbn [mtch_of m_start] in Hy'.
         assert (s' = s) by lia. subst s'. apply HL in HinL'. destruct HinL' as [E' _]. destruct H as [E _].
         rewrite E in E'. inversion E'; subst. exact Hin'.
@@ -296,8 +331,8 @@ Section Single.
     flat_map (fun s => opt_list (verify_anchored s d)) [sp] ++
     flat_map (fun h => opt_list (handle_hit [sp] atoms d h)) hits.
 
-  Lemma scan_pipeline_fed : scan_pipeline [sp] atoms hits d = run_adds (all_false (map mtch_of fed)).
-  Proof. unfold scan_pipeline, fed, all_false. rewrite map_map. reflexivity. Qed.
+  Lemma scan_pipeline_fed : scan_pipeline [sp] atoms hits d = run_adds (all_true (map mtch_of fed)).
+  Proof. unfold scan_pipeline, fed, all_true. rewrite map_map. reflexivity. Qed.
 
   Lemma fed_hits_In : forall r,
     In r (flat_map (fun h => opt_list (handle_hit [sp] atoms d h)) hits) <->
@@ -730,9 +765,7 @@ Proof.
   { induction hits as [|[i pos] hits IH]; [reflexivity|]. cbn [flat_map]. rewrite IH.
     unfold handle_hit. cbn [fst]. destruct i; reflexivity. }
   unfold scan_pipeline. rewrite Hhits, app_nil_r. cbn [flat_map]. rewrite app_nil_r.
-  change (map (fun r => (mtch_of r, false)) (opt_list (verify_anchored sp d)))
-    with (map (fun r => (mtch_of r, false)) (opt_list (verify_anchored sp d))).
-  rewrite <- (map_map mtch_of (fun m => (m, false))). fold (all_false (map mtch_of (opt_list (verify_anchored sp d)))).
+  rewrite <- (map_map mtch_of (fun m => (m, true))). fold (all_true (map mtch_of (opt_list (verify_anchored sp d)))).
   apply (pipeline_generic (sp_match sp xr d) (length d)).
   intros s e k. unfold verify_anchored, sp_match. cbn [sp sp_kind sp_flags].
   unfold verify_literal. rewrite vfw_guard.
